@@ -1,0 +1,8 @@
+//go:build verif
+
+package curves
+
+// VerifReset clears the package registry between simulated runs.
+func VerifReset() {
+	speedCurveMap.Clear()
+}
